@@ -77,13 +77,12 @@ func (h *hist) begin(writable bool) *txPair {
 }
 
 // commitEffects propagates a writer's commit to the bookkeeping of readers.
-func (h *hist) commitEffects(before *kvmodel.State) {
-	after := h.e.m.Committed
-	for hsh := range before.Blocks {
-		if _, ok := after.Blocks[hsh]; !ok {
-			for _, r := range h.readers {
-				r.lost[hsh] = true
-			}
+func (h *hist) commitEffects(p *txPair) {
+	// the files of pruned blocks are gone for every snapshot taken earlier (a block
+	// may have been stored again by the same transaction: the old copy is gone all the same)
+	for hsh := range p.pruned {
+		for _, r := range h.readers {
+			r.lost[hsh] = true
 		}
 	}
 	h.snapDue = true
@@ -98,7 +97,6 @@ func (h *hist) commitEffects(before *kvmodel.State) {
 
 func (h *hist) endTx(p *txPair, commit bool) {
 	e := h.e
-	before := e.m.Committed
 	dirty := p.m.Dirty
 	var err error
 	if commit {
@@ -111,7 +109,7 @@ func (h *hist) endTx(p *txPair, commit bool) {
 		}
 		e.expect(Op{K: "commit"}, want, err, sig)
 		if want == kvmodel.OK {
-			h.commitEffects(before)
+			h.commitEffects(p)
 		}
 	} else {
 		e.logf("tx#%d Rollback", p.id)
@@ -150,7 +148,6 @@ func (h *hist) managed(t *rapid.T, update bool) {
 		name = "Update"
 	}
 	e.logf("tx#%d %s{ (outcome %s)", p.id, name, outcome)
-	before := e.m.Committed
 	errBoom := fmt.Errorf("closure error (harness)")
 	type closurePanic struct{}
 	var retErr error
@@ -227,7 +224,7 @@ func (h *hist) managed(t *rapid.T, update bool) {
 		e.classes["rollback-after-writes"] = true
 	}
 	if committed {
-		h.commitEffects(before)
+		h.commitEffects(p)
 	}
 	e.logf("tx#%d } -> %v", p.id, retErr)
 	// the transaction handle must be closed now
@@ -309,7 +306,6 @@ func TestHistory(t *testing.T) {
 				}
 				return map[string]any{"class": cl, "max_file": e.maxFile, "flush": h.mode, "ops": l}
 			})
-			dbgDump(e)
 			// leave no transaction open so that Close cannot block
 			if h.writer != nil && !h.writer.m.Closed {
 				_ = h.writer.real.Rollback()
@@ -356,7 +352,6 @@ func TestHistory(t *testing.T) {
 			e.nextTxID++
 			p := &txPair{m: mt, lost: map[kvmodel.Hash]bool{}, cacheOK: cacheOK, id: e.nextTxID, managed: true}
 			e.logf("tx#%d Update{ (block batch)", p.id)
-			before := e.m.Committed
 			var err error
 			e.withMax(func() {
 				err = e.db.Update(func(tx database.Tx) error {
@@ -371,7 +366,7 @@ func TestHistory(t *testing.T) {
 				e.failf("", "Update storing %d blocks: %v", n, err)
 			}
 			p.m.Commit()
-			h.commitEffects(before)
+			h.commitEffects(p)
 			e.logf("tx#%d }", p.id)
 		}
 		actions := map[string]func(*rapid.T){
